@@ -54,6 +54,8 @@ FIXES = [
     ('26-C04-decbounds-exact-upper-edge.patch', 'C04', 'C04.GRID'),
     ('27-C09-maskpoints-empty-failure-list.patch', 'C09', 'C09.SCREEN'),
     ('28-C11-combine1fiber-bad-region-exact-zero.patch', 'C11', 'C11.SCALE-FREE'),
+    ('29-C02-yanny-file-objects-without-mode.patch', 'C02', 'C02.BINARY'),
+    ('30-C16-readspec-znum-row.patch', 'C16', 'C16.ROWSEL'),
 ]
 
 
